@@ -135,7 +135,16 @@ class Exprs:
         for i, v in enumerate(node.values):
             val = self.eval(v, cur)
             last = i == len(node.values) - 1
-            result = val if result is None else self.join(result, val, env)
+            contrib = val
+            if not last:
+                # a non-final operand is the result only when it short-circuits: truthy for `or`, falsy for `and`
+                alts_ = val.alts if isinstance(val, Maybe) else [val]
+                keep_ = [a_ for a_ in alts_ if self.truth(a_, cur) is not is_and]
+                contrib = None
+                for a_ in keep_:
+                    contrib = a_ if contrib is None else Maybe.of(contrib, a_)
+            if contrib is not None:
+                result = contrib if result is None else self.join(result, contrib, env)
             if last:
                 envs_out.append(cur)
                 break
@@ -192,8 +201,9 @@ class Exprs:
         acc = envs[0]
         val = vals[0]
         for e, v in zip(envs[1:], vals[1:]):
+            old_ = acc
             acc = self.join_env(acc, e)
-            val = self.join(val, v, acc)
+            val = self.join_sided(val, old_, v, e, acc)
         env.store = acc.store
         env.facts = acc.facts
         env.frames = acc.frames
@@ -478,6 +488,27 @@ class Exprs:
             e = self.elem_of(x, env)
             elem = e if elem is None else self.join(elem, e, env)
         return ListOf(elem, la + lb, None if (ha is None or hb is None) else ha + hb)
+
+    def instance_of(self, v, env):
+        """one particular element of a summarised sequence: what is learnt about it later says nothing about the other elements"""
+        if isinstance(v, Str):
+            from .strops import ORIGIN
+
+            def cp(c):
+                if isinstance(c, frozenset):
+                    return c
+                n = env.new_cell(env.cls(c))
+                ORIGIN[n] = c
+                return n
+            if v.fixed:
+                r = Str([cp(c) for c in v.pre], imprecise=v.imprecise)
+            else:
+                r = Str([cp(c) for c in v.pre], cp(v.body), [cp(c) for c in v.suf], v.lo, v.hi, v.imprecise)
+            r.reg = v.reg
+            return r
+        if isinstance(v, Tup) and not v.mutable:
+            return Tup([self.instance_of(x, env) for x in v.elems])
+        return v
 
     def elem_of(self, x, env):
         if isinstance(x, Tup):
